@@ -4,7 +4,7 @@ id=$1; x=$2; chk=${3:-$1}; tier=${4:-quick}
 p=/verif/seeded/$id-$x/patch.diff; [ -f $p ] || p=/tmp/seed/$id.out/$x/patch.diff
 cd /repo || exit 2
 git diff --quiet || { echo "repo dirty"; exit 2; }
-git apply $p || exit 3
+git apply $p || { echo "$id/$x: patch does not apply on HEAD (a later fix touches the same lines); see meta.json"; exit 3; }
 ( cd /verif && ./vcheck run $chk --tier $tier > /tmp/seed/$id.$x.$chk.check.log 2>&1 ); rc=$?
 git -C /repo checkout -- . ; git -C /repo clean -qfd teamserver >/dev/null
 echo "$id/$x on $chk: rc=$rc  $(grep -c '^VIOLATION' /tmp/seed/$id.$x.$chk.check.log) violations: $(grep -A1 '^VIOLATION' /tmp/seed/$id.$x.$chk.check.log | grep signature | head -2 | tr '\n' ' ')"
